@@ -40,7 +40,10 @@ def gen_case(rng, tier):
     n = rng.choice([2, 2, 3, 3, 4, 5])
     envs = [B.gen_env(rng, n_cores=n) for _ in range(K_ENVS[tier])]
     envs[0]["stall"] = False
-    return {"ast": ast, "cores": n, "envs": envs, "pin": rng.random() < 0.2 and not prof["multiblock"]}
+    case = {"ast": ast, "cores": n, "envs": envs, "pin": rng.random() < 0.2 and not prof["multiblock"]}
+    if rng.random() < 0.15:
+        case["nested_module"] = True  # the functions are grouped in a module inside the top-level module (per-cluster code)
+    return case
 
 
 def roles_of(ast):
@@ -104,6 +107,8 @@ def first_diff(a, b):
 def execute(case):
     out = new_outcome()
     src = B.emit(case["ast"])
+    if case.get("nested_module"):
+        src = "builtin.module {\n" + src.replace("builtin.module {", "builtin.module @cluster0 {", 1) + "\n}"
     n = case["cores"]
     spec = f"dispatch-regions{{nb_cores={n}}}" + (",function-constant-pinning" if case.get("pin") else "")
     try:
@@ -157,6 +162,8 @@ def execute(case):
 
 
 def shrink(case):
+    if case.get("nested_module"):
+        yield {k: v for k, v in case.items() if k != "nested_module"}
     if len(case["envs"]) > 1:
         for i in range(len(case["envs"])):
             yield dict(case, envs=[case["envs"][i]])
